@@ -39,6 +39,9 @@ pub struct CfgOpts {
     /// per mille of P-256 sessions in which one party is byzantine: it announces (transmits) a
     /// static public key that is not a curve point, and otherwise follows the protocol
     pub evil_pub: u32,
+    /// per mille of X25519 sessions in which a pre-shared remote static key is given in a
+    /// non-canonical encoding (p + k, k in 2..=18), which RFC 7748 requires to be accepted
+    pub noncanonical_rs: u32,
     /// use exactly this protocol name (systematic enumerations)
     pub force_name: Option<String>,
     /// use exactly this backend on both nodes
@@ -58,6 +61,7 @@ impl Default for CfgOpts {
             snow_keygen: 0,
             surplus_rs: 0,
             evil_pub: 0,
+            noncanonical_rs: 0,
             force_name: None,
             force_backend: None,
         }
@@ -231,6 +235,20 @@ pub fn gen_session(rng: &mut Rng, name: &str, opts: &CfgOpts, seed_salt: u64) ->
     };
     let mut a = mk(true, rng);
     let mut b = mk(false, rng);
+    if opts.noncanonical_rs > 0 && proto.dh == DhK::X25519 && rng.chance(opts.noncanonical_rs as u64, 1000) {
+        // p = 2^255 - 19, little endian: ed ff .. ff 7f ; p + k for k in 2..=18
+        let k = rng.range(2, 18) as u8;
+        let mut key = vec![0xFFu8; 32];
+        key[0] = 0xED + k;
+        key[31] = 0x7F;
+        if a.rs_pub.is_some() && rng.chance(1, 2) {
+            a.rs_pub = Some(key);
+        } else if b.rs_pub.is_some() {
+            b.rs_pub = Some(key);
+        } else if a.rs_pub.is_some() {
+            a.rs_pub = Some(key);
+        }
+    }
     if opts.evil_pub > 0 && proto.dh == DhK::P256 && rng.chance(opts.evil_pub as u64, 1000) {
         // only a static key that is transmitted (not pre-shared) can be announced falsely without
         // the configuration itself being inconsistent
